@@ -148,6 +148,9 @@ class Rules:
         for s in scopes:
             text = self.sub("R1:" + s, r"(?<![\w:])%s::" % re.escape(s), "", text)
         text = self.sub("R1:std", r"(?<![\w:])std::(?=(log|exp|sqrt|floor|pow|sin|cos|fabs|abs|memset|memcpy|memcmp|strncpy|min|max|round|isfinite)\b)", "", text)
+        for ty, lim in (("double", "DBL"), ("float", "FLT")):
+            text = self.sub("R1:limits", r"std::numeric_limits\s*<\s*%s\s*>\s*::\s*max\s*\(\s*\)" % ty, lim + "_MAX", text)
+            text = self.sub("R1:limits", r"std::numeric_limits\s*<\s*%s\s*>\s*::\s*infinity\s*\(\s*\)" % ty, "((%s)INFINITY)" % ty, text)
         text = self.sub("R1:global", r"(?<![\w:\)])::(?=[a-z_]\w*\s*\()", "", text)
         return text
 
@@ -166,7 +169,7 @@ class Rules:
                 text = text[:m.start()] + "((" + ty + ")(" + text[lp + 1:rp] + "))" + text[rp + 1:]
                 self._count("R2:" + kw, 1)
         # functional casts T(e) for builtin arithmetic types
-        pat = re.compile(r"(?<![\w>\.\)])((?:u?int(?:8|16|32|64)_t|size_t|uint_fast32_t|int_fast32_t|unsigned|double|float|intptr_t|ssize_t))\s*\((?!\s*\*)")
+        pat = re.compile(r"(?<![\w>\.\)])((?:u?int(?:8|16|32|64)_t|size_t|uint_fast32_t|int_fast32_t|unsigned|double|float|intptr_t|ssize_t|int|long))\s*\((?!\s*\*)")
         pos = 0
         while True:
             m = pat.search(text, pos)
